@@ -6,5 +6,6 @@ HERE="$(cd "$(dirname "${BASH_SOURCE[0]}")" && pwd)"
 cd "$HERE/harness"
 cargo build --offline 2>&1 | tail -n 3
 cargo build --offline --manifest-path /repo/Cargo.toml --features cli --bins --target-dir "$HERE/harness/target/cli" 2>&1 | tail -n 3
+cargo build --offline --release --manifest-path /repo/Cargo.toml --features cli --bins --target-dir "$HERE/harness/target/cli" 2>&1 | tail -n 3
 mkdir -p "$HERE/work" "$HERE/evidence"
 echo setup-ok
